@@ -437,6 +437,10 @@ def check_property(pid, tier='quick', seed=0, extra=None):
     units = units_serving(pid)
     os.makedirs(os.path.join(VERIF, 'evidence'), exist_ok=True)
     evp = os.path.join(VERIF, 'evidence', pid + '.json')
+    if _REPO != os.path.realpath('/repo'):
+        # development / seeded-change runs against another tree never overwrite the evidence of /repo
+        os.makedirs(os.path.join(VERIF, '.cache', 'evidence_alt'), exist_ok=True)
+        evp = os.path.join(VERIF, '.cache', 'evidence_alt', pid + '.json')
     if os.path.exists(evp):
         os.remove(evp)
     if not units:
